@@ -498,7 +498,7 @@ choices carries a post byte with low nibble `9` (16-bit constant offset): the si
 theorem Stages.abs_postbyte {fs : Files} {lines : List Str} {a : Assembly} (st : Stages fs lines a)
     {i : Nat} {s : Stmt} (hs : a.stmts[i]? = some s) (hn : s.pkg.needsRes = true) (hc : s.pkg.choices = []) :
     ∃ pb, s.pkg.postByte.int? = some pb ∧ pb % 16 = 9 := by
-  obtain ⟨s4, hs4, hsame⟩ := (fixAll_pw st.hfix).get' hs
+  obtain ⟨s4, hs4, hsame⟩ := (fixAllL_pw st.hfix).get' hs
   obtain ⟨s3, hs3, hrel34⟩ := (assignAddrs_pw st.haddr).get' hs4
   obtain ⟨s2, hs2, hrel23⟩ := (pcrLoop_pw _ _ st.hpcr).get' hs3
   obtain ⟨s1, _, p, htr, rfl⟩ := (translateAll_pw st.htranslate).get' hs2
